@@ -5,6 +5,7 @@ from .common import TRUSTED, Ctx
 
 def check(rep):
     ctx = Ctx(rep)
+    ctx.shape_options.add("overflow")      # numbers beyond the float range: how they are spelled may need a name the evaluator lacks
     PR.rule_compiles(ctx, rid="C14.BOTH-LAYOUTS-PARSE", text_only=True)
     PR.rule_layout_names(ctx)
     from . import evalrules as ER
